@@ -228,6 +228,44 @@ def rule_composite_registrations(ctx, rule_id="C19.composite-registration"):
                   "leaves E registered, so the corrected retry is refused as a duplicate extension", file=fi.module.relpath,
                   line=b.lineno, function="%s.wrapper" % fi.parent_func.name,
                   expected="try: return <builder>(...)  except Exception: <unregister the extension>; raise", found=short(b, 100))
+        if tr is None:
+            continue
+        ec = ext_classes[0]
+        inside = any(ec is x for st_ in tr.body for x in ast.walk(st_))
+        run.check(not inside, R, key(fi.module.relpath, "%s.wrapper" % fi.parent_func.name, "undo-covers-only-what-this-call-registered"),
+                  "the extension registration itself sits inside the try whose handler unregisters the extension: when it is "
+                  "REFUSED because that extension name is already registered, the handler removes the pre-existing registration "
+                  "(a refused registration must leave the existing one intact)", file=fi.module.relpath, line=ec.lineno,
+                  function="%s.wrapper" % fi.parent_func.name,
+                  expected="register the extension before the try; the try covers only what follows a successful registration",
+                  found="class %s inside try at line %d" % (ec.name, tr.lineno))
+        # between the successful extension registration and the protected region nothing may fail: a statement that can raise
+        # there (a subscript, a call) leaves the extension registered and the type not
+        if not inside:
+            seq = []            # statements executed after the registration, before the try, in source order
+            blk, node_ = getattr(ec, "parent", None), ec
+            while blk is not None:
+                for fld in ("body", "orelse", "finalbody"):
+                    lst = getattr(blk, fld, None)
+                    if isinstance(lst, list) and node_ in lst:
+                        seq.extend(lst[lst.index(node_) + 1:])
+                if blk is fi.node:
+                    break
+                node_, blk = blk, getattr(blk, "parent", None)
+            risky = []
+            for st_ in seq:
+                if st_ is tr:
+                    break
+                simple = isinstance(st_, ast.Assign) and not any(isinstance(x, (ast.Call, ast.Subscript, ast.Await, ast.Yield))
+                                                                for x in ast.walk(st_))
+                if not simple:
+                    risky.append(st_)
+            run.check(not risky, R, key(fi.module.relpath, "%s.wrapper" % fi.parent_func.name, "nothing-can-fail-between-the-registrations"),
+                      "a statement that can raise runs after the extension was registered and outside the try that would undo it: "
+                      "when it fails the type is not registered but the extension stays behind (and its name is taken)",
+                      file=fi.module.relpath, line=(risky[0].lineno if risky else ec.lineno),
+                      function="%s.wrapper" % fi.parent_func.name,
+                      expected="only plain assignments between the extension registration and the try", found=[short(x, 80) for x in risky])
     if n < 2:
         raise AnalysisError("fewer than 2 decorators making an extension + a type registration found (%d)" % n)
 
